@@ -20,13 +20,13 @@ TIE = {EXIT: 0, HAND: 1, ENTER: 2, PULL: 3}
 
 
 def gen_case(rng, idx):
-    if idx < 6:
+    if idx < 10:
         # whatever the seed: every executor kind with busy workers (calls overlap) and with a slow consumer (the window fills)
-        mode = ['thread', 'process', 'async'][idx % 3]
-        if idx < 3:
+        mode = ['thread', 'process', 'async', 'athread', 'aasync'][idx % 5]
+        if idx < 5:
             return {'mode': mode, 'conc': 2, 'endless': True, 'n': 0, 'stop_after': 30, 'dur_ms': 20, 'src_ms': 0, 'cons_ms': 0, 'burst': False}
         return {'mode': mode, 'conc': 3, 'endless': False, 'n': 40, 'stop_after': None, 'dur_ms': 8, 'src_ms': 0, 'cons_ms': 15, 'burst': False}
-    mode = rng.choice(['thread', 'thread', 'process', 'async', 'async'])
+    mode = rng.choice(['thread', 'thread', 'process', 'async', 'async', 'athread', 'aasync', 'aasync'])
     conc = rng.choice([1, 2, 2, 3, 4])
     endless = rng.random() < 0.4
     n = rng.choice([12, 25, 40])
@@ -37,6 +37,55 @@ def gen_case(rng, idx):
 
 
 def run_case(c):
+    if c['mode'] in ('athread', 'aasync'):
+        return _finish_case(c, *_run_case_aenv(c))
+    return _finish_case(c, *_run_case_sync(c))
+
+
+def _run_case_aenv(c):
+    """the same observation on AsyncStream.parmap: async source, async consumer; the worker function is sync on a thread pool
+    ('athread') or async on the consumer's own loop ('aasync')"""
+    import asyncio
+    from mpservice.streamer._streamer_async import AsyncStream
+    from harness import parreal_workers as W
+    ev, alog, out = [], [], []
+    box = {'t_stop': None}
+
+    async def source():
+        it = itertools.count() if c['endless'] else iter(range(c['n']))
+        for x in it:
+            if c['src_ms']:
+                await asyncio.sleep(c['src_ms'] / 1000)
+            ev.append((time.monotonic_ns(), PULL))
+            yield x
+
+    async def main():
+        kw = {'dur': c['dur_ms'] / 1000}
+        if c['mode'] == 'aasync':
+            s = AsyncStream(source()).parmap(W.awork, concurrency=c['conc'], log=alog, **kw)
+        else:
+            s = AsyncStream(source()).parmap(W.work, executor='thread', concurrency=c['conc'], **kw)
+        it = s.__aiter__()
+        try:
+            async for y in it:
+                ev.append((time.monotonic_ns(), HAND))
+                out.append(y)
+                if c['stop_after'] is not None and len(out) >= c['stop_after']:
+                    box['t_stop'] = time.monotonic_ns()
+                    break
+                if c['burst'] and len(out) % 7 == 3:
+                    await asyncio.sleep(max(0.03, 6 * c['dur_ms'] / 1000))
+                elif c['cons_ms']:
+                    await asyncio.sleep(c['cons_ms'] / 1000)
+        finally:
+            await it.aclose()
+
+    t0 = time.monotonic()
+    asyncio.run(main())
+    return ev, alog, out, box['t_stop'], time.monotonic() - t0
+
+
+def _run_case_sync(c):
     from mpservice.streamer import Stream
     from harness import parreal_workers as W
     ev = []          # (stamp, kind); list.append is atomic
@@ -74,7 +123,10 @@ def run_case(c):
         close = getattr(it, 'close', None)
         if close:
             close()
-    elapsed = time.monotonic() - t0
+    return ev, alog, out, t_stop, time.monotonic() - t0
+
+
+def _finish_case(c, ev, alog, out, t_stop, elapsed):
     pids = set()
     for y in out:
         x, pid, a, b = y
@@ -153,7 +205,7 @@ def core_order_cases():
     out = []
     base = {'has_pre': False, 'pre_fail': {}, 'call_fail': {}, 'return_x': False, 'return_exc': False, 'stop_after': None,
             'scale': 2, 'cons_ms': 0}
-    for mode in ('thread', 'process', 'async'):
+    for mode in ('thread', 'process', 'async', 'athread', 'aasync'):
         d12 = [['d', i] for i in range(12)]
         for extra in (
             {'conc': 2, 'src': d12, 'call_fail': {3: 21, 7: 23}, 'return_exc': True},
@@ -165,6 +217,9 @@ def core_order_cases():
             c = dict(base, mode=mode, iters=2, **extra)
             c['cap'] = 2 * c['conc']
             out.append(c)
+        if mode in ('athread', 'aasync'):
+            for how in ('cancel', 'gc'):
+                out.append(dict(base, mode=mode, iters=2, conc=2, cap=4, src=[['d', i] for i in range(40)], stop_after=4, stop_kind=how))
     return out
 
 
@@ -181,7 +236,7 @@ def _gen_order_case(rng, idx):
     core = core_order_cases()
     if idx < len(core):
         return core[idx]
-    mode = rng.choice(['thread', 'process', 'async', 'async'])
+    mode = rng.choice(['thread', 'process', 'async', 'async', 'athread', 'aasync', 'aasync'])
     conc = rng.choice([1, 2, 2, 3, 4])
     n = rng.choice([0, 1, 2, 5, 9, 14, 20, 30])
     table = [['d', i] for i in range(n)]
@@ -199,7 +254,8 @@ def _gen_order_case(rng, idx):
     return {'mode': mode, 'conc': conc, 'cap': 2 * conc, 'src': table, 'has_pre': has_pre, 'pre_fail': pre_fail, 'call_fail': call_fail,
             'return_x': rng.random() < 0.4, 'return_exc': rng.random() < 0.5,
             'stop_after': rng.choice([None, None, None, 1, 2, 3, 5, 8]), 'scale': rng.choice([0, 1, 3]),
-            'cons_ms': rng.choice([0, 0, 2, 6]), 'iters': rng.choice([1, 2, 2, 3])}
+            'cons_ms': rng.choice([0, 0, 2, 6]), 'iters': rng.choice([1, 2, 2, 3]),
+            'stop_kind': rng.choice(['break', 'break', 'cancel', 'gc']) if mode in ('athread', 'aasync') else None}
 
 
 _cid = itertools.count()
@@ -229,9 +285,12 @@ def run_order_case(c):
         return x + PRE_OFFSET
 
     kw = {'fail': cf, 'off': off, 'scale': c['scale'], 'return_x': c['return_x'], 'return_exceptions': c['return_exc'],
-          'cid': None if c['mode'] == 'process' else cid}
+          'cid': None if c['mode'] == 'process' else cid, 'to_stop': 0}
+    kw['tasks' if c['mode'] in ('async', 'aasync') else 'q'] = 0
     if c['has_pre']:
         kw['preprocessor'] = pre
+    if c['mode'] in ('athread', 'aasync'):
+        return _run_order_aenv(c, kw, cid, pf, cf)
     if c['mode'] == 'async':
         s = Stream(Source()).parmap(W.af, concurrency=c['conc'], **kw)
     else:
@@ -287,6 +346,121 @@ def run_order_case(c):
     return obs
 
 
+def _run_order_aenv(c, kw, cid, pf, cf):
+    """AsyncStream.parmap in an async environment: async source, async consumer that completes, breaks (and closes), is
+    cancelled while waiting inside the stream, or breaks and drops the iterator (closed by the loop's asyncgen hook)"""
+    import asyncio
+    import gc
+    from mpservice.streamer._streamer_async import AsyncStream
+    from harness import parreal_workers as W
+    from harness.events import v_exc
+
+    class Source:
+        def __aiter__(self):
+            return self.gen()
+
+        async def gen(self):
+            for kind, v in c['src']:
+                if kind == 'd':
+                    if v % 3 == 0:
+                        await asyncio.sleep(0)
+                    yield v
+                else:
+                    raise W.SrcErr(v)
+
+    pname = f'pm{cid}x'
+    if c['mode'] == 'aasync':
+        s = AsyncStream(Source()).parmap(W.af, concurrency=c['conc'], parmapper_name=pname, **kw)
+    else:
+        s = AsyncStream(Source()).parmap(W.f, executor='thread', concurrency=c['conc'], parmapper_name=pname, **kw)
+
+    def code(y):
+        if isinstance(y, BaseException):
+            return v_exc(y.code) if hasattr(y, 'code') and isinstance(y.code, int) else -999999
+        return y if isinstance(y, int) else -999998
+
+    how = c.get('stop_kind') or 'break'
+
+    async def consume(res):
+        out = []
+        res['received'] = out
+        me = asyncio.current_task()
+        it = s.__aiter__()
+        closed = False
+        try:
+            try:
+                async for y in it:
+                    if c['return_x']:
+                        x, v = y
+                        out.append(x * 1000000 + code(v) + 500000)
+                    else:
+                        out.append(code(y))
+                    if c['stop_after'] is not None and len(out) >= c['stop_after']:
+                        if how == 'cancel':
+                            asyncio.get_running_loop().call_soon(me.cancel)     # arrives while waiting inside the stream
+                            continue
+                        res['outcome'] = ['broke']
+                        break
+                    if c['cons_ms']:
+                        await asyncio.sleep(c['cons_ms'] / 1000)
+                else:
+                    res['outcome'] = ['completed']
+            except asyncio.CancelledError:
+                res['outcome'] = ['broke']        # stopped from outside: for the model, a consumer that stops here
+                res['cancelled_after'] = len(out)
+            except Exception as e:  # noqa
+                res['outcome'] = ['raised', e.code] if isinstance(getattr(e, 'code', None), int) else ['other', repr(e)[:200]]
+        finally:
+            if how == 'gc' and res.get('outcome') == ['broke']:
+                del it
+                gc.collect()
+                await asyncio.sleep(0.05)          # the loop's asyncgen finalizer hook closes it
+            else:
+                await it.aclose()
+
+    async def main(res):
+        t = asyncio.ensure_future(consume(res))
+        try:
+            await asyncio.wait_for(asyncio.shield(t), RUN_LIMIT)
+        except asyncio.TimeoutError:
+            res['hung'] = True
+            return
+        except asyncio.CancelledError:
+            pass
+        await asyncio.wait([t])
+        await asyncio.sleep(0.3)                  # grace for helpers to go away
+        res['tasks_left'] = sorted(x.get_name() for x in asyncio.all_tasks() if x is not asyncio.current_task())
+        res['threads_left'] = sorted(x.name for x in threading.enumerate() if x.is_alive() and x.name.startswith(pname))
+
+    obs = []
+    for k in range(c.get('iters', 1)):
+        res = {}
+        W.CALLS.pop(cid, None)
+        t0 = time.monotonic()
+        box = {}
+
+        def runner():
+            try:
+                asyncio.run(main(res))
+            except BaseException as e:  # noqa
+                box['crash'] = repr(e)[:300]
+
+        th = threading.Thread(target=runner, daemon=True)
+        th.start()
+        th.join(RUN_LIMIT + 30)
+        if th.is_alive() or res.get('hung'):
+            obs.append({'hung': True, 'received': res.get('received'), 'outcome': None, 'elapsed': RUN_LIMIT})
+            break
+        if box.get('crash'):
+            obs.append({'crash': box['crash']})
+            break
+        res['elapsed'] = round(time.monotonic() - t0, 3)
+        res['calls'] = list(W.CALLS.get(cid, []))
+        obs.append(res)
+    W.CALLS.pop(cid, None)
+    return obs
+
+
 def order_oracle(r):
     from harness.props.c01 import expected
     c, o = r['cfg'], r['obs']
@@ -300,8 +474,15 @@ def order_oracle(r):
     if oc[0] == 'other':
         return (f'{tag}: the iteration raised {oc[1]}', None)
     sa = c['stop_after']
-    if sa is not None and len(exp) >= sa:
+    if 'cancelled_after' in o:
+        sa = o['cancelled_after']          # cancelled from outside at some point after the k-th output
+        if sa < (c['stop_after'] or 0):
+            return (f'{tag}: cancelled after {c["stop_after"]} outputs but only {sa} are on record', None)
+    if sa is not None and (len(exp) >= sa if 'cancelled_after' not in o else True):
         exp, fin = exp[:sa], ['broke']
+    if o.get('tasks_left') or o.get('threads_left'):
+        return (f"{tag}: {c.get('stop_kind') or 'the'} consumer ended with {oc}; 0.3 s later still alive: tasks {o.get('tasks_left')}, "
+                f"threads {o.get('threads_left')}", None)
     if got != exp:
         return (f'{tag}: outputs are not the in-order results of the inputs: received {got}, expected {exp}', None)
     if oc != fin:
@@ -327,8 +508,9 @@ def coq_order_case(r):
         return '(1%nat, [], false, [], [], (false, false), None, [7%Z], 0%Z)'      # judged by the oracle
     pf = clist(sorted((int(k), v) for k, v in c['pre_fail'].items()), lambda kv: f'({cz(kv[0])}, {cz(kv[1])})')
     cf = clist(sorted((int(k), v) for k, v in c['call_fail'].items()), lambda kv: f'({cz(kv[0])}, {cz(kv[1])})')
+    sa = o['cancelled_after'] if 'cancelled_after' in o else c['stop_after']
     return (f"({cnat(c['conc'])}, {coq_src(c['src'])}, {cbool(c['has_pre'])}, {pf}, {cf}, ({cbool(c['return_x'])}, {cbool(c['return_exc'])}), "
-            f"{copt(c['stop_after'], cnat)}, {clist(o['received'], cz)}, {cz(outcome_code(o['outcome']))})")
+            f"{copt(sa, cnat)}, {clist(o['received'], cz)}, {cz(outcome_code(o['outcome']))})")
 
 
 def order_part(n_quick, n_thorough):
